@@ -77,15 +77,28 @@ func TestVerifC12Upload(t *testing.T) {
 		nreq := rapid.IntRange(1, 4).Draw(t, "nreq")
 		var descs []string
 		wellTyped := false
+		var lastStored *telemetry.Report
 		for i := 0; i < nreq; i++ {
 			method := rapid.SampledFrom([]string{"POST", "POST", "POST", "POST", "POST", "GET", "HEAD", "PUT", "DELETE", "PATCH", "OPTIONS"}).Draw(t, "method")
 			path := rapid.SampledFrom([]string{"/upload/2024-01-01", "/upload/", "/upload/x/y", "/upload/2024-01-01/0.5.json", "/upload/..%2f..%2fx"}).Draw(t, "path")
 			rep := vgen.ApprovedReport(t, ucfg)
-			class := rapid.SampledFrom([]string{"valid", "valid", "valid", "mutated", "mutated", "mutated", "bytes", "truncated", "wrongtype", "trailing-garbage", "padded-over-limit", "too-big", "null-program", "null", "huge-x", "just-below-limit"}).Draw(t, "class")
+			class := rapid.SampledFrom([]string{"valid", "valid", "valid", "mutated", "mutated", "mutated", "bytes", "truncated", "wrongtype", "trailing-garbage", "padded-over-limit", "too-big", "null-program", "null", "huge-x", "just-below-limit", "same-name-again"}).Draw(t, "class")
+			if class == "same-name-again" && lastStored == nil {
+				class = "valid"
+			}
 			var body []byte
 			verdict := "" // "store", "reject", "" (no verdict on storing; still no 5xx, nothing outside the bucket)
 			detail := ""
 			switch class {
+			case "same-name-again":
+				// another valid report with the Week and X of one stored earlier (a retry after a lost answer, with
+				// fewer or more programs): the object of that name now holds this report
+				rep.Week, rep.X = lastStored.Week, lastStored.X
+				if rapid.Bool().Draw(t, "shorter") {
+					rep.Programs = nil
+				}
+				body, _ = json.Marshal(rep)
+				verdict = "store"
 			case "valid":
 				body, _ = json.Marshal(rep)
 				verdict = "store"
@@ -205,6 +218,7 @@ func TestVerifC12Upload(t *testing.T) {
 				if !reflect.DeepEqual(got, sent) {
 					t.Fatalf("%s: stored object decodes to a different report:\n got  %+v\n sent %+v", desc, got, sent)
 				}
+				lastStored = &sent
 			case "reject":
 				if rec.Code < 400 || rec.Code > 499 {
 					t.Fatalf("%s: want a 4xx answer (%s)\nbody: %.300q", desc, strings.TrimSpace(rec.Body.String()), body)
